@@ -420,6 +420,66 @@ def numberMethodThis (k : ThisKind) : Bool :=
 def literalString (s : Str) : Option Str := (literalValue s).map toStringNum
 def parseIntString (s : Str) (a : Arg) : Str := toStringNum (parseInt s a)
 
+
+/-! ### object arguments of toString(radix) / toFixed / toExponential / toPrecision: ES5 step order -/
+
+/-- §9.3 ToNumber of an object = ToNumber(ToPrimitive(hint Number)) (§8.12.8: valueOf, then toString,
+    TypeError if neither returns a primitive) -/
+def toNumberObj (sc : Script) (st : CState) : Conv × CState :=
+  match pick sc.vs st.vi with
+  | .num x => (.val x, { st with vi := st.vi + 1, log := st.log ++ [118] })
+  | .throw => (.thrown, { st with vi := st.vi + 1, log := st.log ++ [118] })
+  | .obj =>
+    match pick sc.ss st.si with
+    | .num x => (.val x, { vi := st.vi + 1, si := st.si + 1, log := st.log ++ [118, 115] })
+    | .throw => (.thrown, { vi := st.vi + 1, si := st.si + 1, log := st.log ++ [118, 115] })
+    | .obj => (.typeError, { vi := st.vi + 1, si := st.si + 1, log := st.log ++ [118, 115] })
+
+/-- the four methods with an object argument, step by step:
+    §15.7.4.5 toFixed: 1 ToInteger(fractionDigits), 2 RangeError, 3 this Number value (TypeError), …
+    §15.7.4.6 toExponential: 1 this Number value, 2 ToInteger(fractionDigits), 3–6 NaN / Infinity, 7 RangeError, …
+    §15.7.4.7 toPrecision: 1 this Number value, (2 undefined), 3 ToInteger(precision), 4–7 NaN / Infinity, 8 RangeError, …
+    §15.7.4.2 toString: this Number value (TypeError: not generic), then ToInteger(radix), RangeError, …
+    Every conversion happens exactly once. -/
+def callWithObject (m : Meth) (r : Recv) (sc : Script) : Out × Str :=
+  match m with
+  | .toFixed =>
+    match toNumberObj sc st0 with
+    | (.val v, st) =>
+      if ltI (toInteger v) 0 ∨ gtI (toInteger v) 20 then (.res .rangeError, st.log)
+      else (match r.value? with
+        | some x => (.res (toFixed x (.num v)), st.log)
+        | none => (.typeError, st.log))
+    | (.thrown, st) => (.thrown, st.log)
+    | (.typeError, st) => (.typeError, st.log)
+  | .toExponential =>
+    match r.value? with
+    | none => (.typeError, [])
+    | some x =>
+      match toNumberObj sc st0 with
+      | (.val v, st) => (.res (toExponential x (.num v)), st.log)
+      | (.thrown, st) => (.thrown, st.log)
+      | (.typeError, st) => (.typeError, st.log)
+  | .toPrecision =>
+    match r.value? with
+    | none => (.typeError, [])
+    | some x =>
+      match toNumberObj sc st0 with
+      | (.val v, st) => (.res (toPrecision x (.num v)), st.log)
+      | (.thrown, st) => (.thrown, st.log)
+      | (.typeError, st) => (.typeError, st.log)
+  | .toString =>
+    match r.value? with
+    | none => (.typeError, [])
+    | some x =>
+      match toNumberObj sc st0 with
+      | (.val v, st) =>
+        (match toStringRadix x (.num v) with
+         | some res => (.res res, st.log)
+         | none => (.res (.str []), st.log))        -- unspecified (non-integral value, radix not a power of two): not generated
+      | (.thrown, st) => (.thrown, st.log)
+      | (.typeError, st) => (.typeError, st.log)
+
 /-! ### deviation regions: decidable predicates over the REQUEST (never model ≠ spec) -/
 namespace Dev
 
@@ -517,6 +577,17 @@ def pint (a : Arg) : List String :=
   | .num x =>
     let t := truncInt x
     if -(2 ^ 63 : Int) ≤ t ∧ t < 2 ^ 63 then [] else ["toInt_big"]
+
+/-- object argument: the regions of the underlying method on the converted value -/
+def argobj (m : Meth) (r : Recv) (sc : Script) : List String :=
+  match r.value?, (toNumberObj sc st0).1 with
+  | some x, .val v =>
+    (match m with
+     | .toFixed => fixed x (.num v)
+     | .toExponential => exp x (.num v)
+     | .toPrecision => prec x (.num v)
+     | .toString => radix x (.num v))
+  | _, _ => []
 
 /-- ToString of an integer-kinded number Value -/
 def istr (i : Int) : List String := if i.natAbs > 2 ^ 53 then ["int_kind_tostring"] else []
